@@ -99,25 +99,36 @@ def run(ctx):
         r1.fail('anchor/case-mapping', FS, 'to_lowercase / to_uppercase not found')
     r1.need(5)
 
-    # ---------------- R18.2
+    # ---------------- R18.2 (MIR: comparison facts dominating the call, whatever their spelling)
     r2 = ctx.rule('R18.2', 'substring/substr are called only after a bounds test on the start index')
-    for f, fn, im in astq.all_fns(ast):
-        if f != STR:
+    from .lib import guards, mirq as _mq
+    from .lib.facts import strip_generics as _sg, op_place as _opp
+    for b in ctx.mir.bodies:
+        if not b.file.startswith('src/builtin/'):
             continue
-        for c, ps in find_nodes(fn['body'], lambda y: y.get('k') == 'mcall' and y['method'] in ('substring', 'substr') and y['args']):
-            start = src(c['args'][0])
-            if re.fullmatch(r'\d+', start):
-                r2.inst({'fn': fn['name'], 'start': start, 'class': 'constant'}, kind=(fn['name'], c['line'] - fn['line']))
+        for bb, t_ in b.calls():
+            nm = _sg(t_.get('callee') or '')
+            if nm not in ('util::fenced_string::FencedString::substring', 'util::fenced_string::FencedString::substr') or len(t_['args']) < 2:
                 continue
-            recv = src(c['recv'])
-            cl = [p for p in ps if p.get('k') == 'closure']
-            scope = cl[-1]['body'] if cl else fn['body']
-            var = re.match(r'^\w+', start).group(0) if re.match(r'^\w+', start) else start
-            tests = [src(i['cond']) for i, _ in find_nodes(scope, lambda y: y.get('k') == 'if') if i['line'] <= c['line']]
-            ok = any(var in t and '.len()' in t and re.search(r'(>=|>)', t) for t in tests)
-            r2.inst({'fn': fn['name'], 'call': '%s.%s(%s..)' % (recv, c['method'], start), 'bounds_test_before': ok}, ok=ok, kind=(fn['name'], c['line'] - fn['line']))
+            fn = _sg(ctx.mir.enclosing_fn(b)) if b.kind == 'closure' else b.nid
+            start = guards.origin_key(b, t_['args'][1])
+            if start[0] == 'const':
+                r2.inst({'fn': fn, 'call': nm.split('::')[-1], 'start': start[1], 'class': 'constant'}, kind=(b.nid, bb))
+                continue
+            recv = guards.origin_key(b, t_['args'][0])
+            facts = guards.dominating_facts(b, bb)
+            ok = guards.implies_ge(facts, ('len', recv), start)
             if not ok:
-                r2.fail('%s/%s/unchecked-start' % (fn['name'], c['method']), '%s:%d' % (STR, c['line']), '%s(%s, ..) without a preceding test of `%s` against the length: an out-of-range index slices past the buffer and crashes' % (c['method'], start, var))
+                # the receiver may be re-borrowed: compare against any len() fact whose receiver denotes the same local
+                rp = _opp(t_['args'][0])
+                root = guards.root_local(b, rp['l']) if rp is not None and not rp['p'] else None
+                for op_, a_, b_ in facts:
+                    for x_, y_ in ((a_, b_), (b_, a_)):
+                        if x_[0] == 'len' and y_ == start and root is not None:
+                            ok = ok or guards.implies_ge(facts, x_, start)
+            r2.inst({'fn': fn, 'call': nm.split('::')[-1], 'start_le_len_established': ok}, ok=ok, kind=(b.nid, bb))
+            if not ok:
+                r2.fail('%s/%s/unchecked-start' % (fn.split('::')[-1], nm.split('::')[-1]), _mq.site(b, bb), '%s(start, ..) is not dominated by a comparison establishing start <= len of the same string: an out-of-range index slices past the buffer and crashes' % nm.split('::')[-1])
     r2.need(3)
 
     # ---------------- R18.5 byte offsets are never used as code-point indices (and vice versa): unit analysis on the MIR
